@@ -74,6 +74,11 @@ class Interp(CoreMixin, ExprMixin, StmtMixin, CallMixin):
             self.schema = Schema(self.prog)
         except AnalysisError:
             self.schema = None
+        if self.schema is not None:
+            try:
+                self.schema.resolve_members(self)       # members made by factories: evaluated, not pattern-matched
+            except Exception:       # noqa: BLE001
+                pass
 
     # ------------------------------------------------------------------ inputs
     def input(self, name, **tags) -> Node:
